@@ -289,16 +289,16 @@ func (s *subVector) Len() int {
 }
 
 func (s *subVector) Index(i int) (any, bool) {
-	if i < 0 || s.begin+i >= s.end {
+	if i < 0 || i >= s.Len() {
 		return nil, false
 	}
 	return s.v.Index(s.begin + i)
 }
 
 func (s *subVector) Assoc(i int, val any) Vector {
-	if i < 0 || s.begin+i > s.end {
+	if i < 0 || i > s.Len() {
 		return nil
-	} else if s.begin+i == s.end {
+	} else if i == s.Len() {
 		return s.Conj(val)
 	}
 	return s.v.Assoc(s.begin+i, val).SubVector(s.begin, s.end)
@@ -320,6 +320,9 @@ func (s *subVector) Pop() Vector {
 }
 
 func (s *subVector) SubVector(i, j int) Vector {
+	if i < 0 || i > j || j > s.Len() {
+		return nil
+	}
 	return s.v.SubVector(s.begin+i, s.begin+j)
 }
 
